@@ -98,7 +98,8 @@ import (
 // GROUPS (run with -func; wall times in the README of the delivery report):
 //
 //	quick     H_paillier_decenc, _encflavours, _symmetric, _open, _op, _op_nonce, _scalar_pk,
-//	          _scalar_pkneg, _scalar_a, _scalar_c, _shift, _rerand, _opinv, _seq            (N = 35)
+//	          _scalar_pkneg, _scalar_c, _shift, _rerand, _opinv (N = 35; about 85 s of solver time, 1.5 min
+//	          wall) and, heavier, _scalar_a (140 s) and _seq (120 s)
 //	controls  H_paillier_decenc_MUSTFAIL, H_paillier_scalar_MUSTFAIL
 //	thorough  N = 35, longer lists / wider ranges: H_paillier_op_hom, _scalar_hom, _scalar_a_M,
 //	          _scalar_b_M, _scalar_c_M, _scalar_hom_M, _shift_hom, _rerand_hom, _opinv_hom, _seq_M, _seq_T;
